@@ -225,11 +225,29 @@ fn run(out: &mut Out, sched: &Value) {
     // rewind nothing: the clock offset only grows; pending deadlines are relative to it
 }
 
-fn rand_ops(rng: &mut impl Rng, bits: usize, local: u64, len: usize, timeout: i64, closest: u64) -> Vec<Value> {
+fn rand_ops(rng: &mut impl Rng, bits: usize, local: u64, len: usize, timeout: i64, closest: u64, hot: bool, cap: usize) -> Vec<Value> {
     let nk = 1u64 << bits;
     let mut ops = vec![];
+    if hot && rng.gen_bool(0.4) {
+        // directed prefix: fill the farthest bucket with disconnected entries, get a pending entry, then replace the
+        // head by removal + insertion so that a pending entry faces a (possibly connected) new head
+        let far = |i: u64| (local ^ (nk >> 1)) ^ (i % (nk >> 1));
+        let o = rng.gen_range(0..(nk >> 1));
+        let cap = cap as u64;
+        for i in 0..cap {
+            ops.push(json!({"a": "ins", "k": far(o + i), "st": "D"}));
+        }
+        ops.push(json!({"a": "ins", "k": far(o + cap), "st": "C"}));
+        ops.push(json!({"a": "rem", "k": far(o)}));
+        if cap > 1 && rng.gen_bool(0.7) {
+            ops.push(json!({"a": "upd", "k": far(o + 1), "st": "C"}));
+        }
+        ops.push(json!({"a": "ins", "k": far(o + cap + 1), "st": if rng.gen_bool(0.8) { "C" } else { "D" }}));
+    }
     for _ in 0..len {
-        let k = rng.gen_range(0..nk);
+        // hot runs: (almost) all keys from the farthest bucket, so that it fills up, gets a pending entry, loses and
+        // regains members
+        let k = if hot && rng.gen_bool(0.9) { (local ^ (nk >> 1)) ^ rng.gen_range(0..(nk >> 1)) } else { rng.gen_range(0..nk) };
         let s = if rng.gen_bool(0.5) { "C" } else { "D" };
         let x = rng.gen_range(0..100);
         ops.push(if x < 38 {
@@ -529,14 +547,15 @@ pub fn main(a: &vcommon::Args) {
             let closest = a.kv_num("closest", 1);
             let mut rng = vcommon::rng(seed);
             for _ in 0..runs {
-                let bits = rng.gen_range(2..=4usize);
+                let hot = rng.gen_bool(0.5);
+                let bits = if hot { rng.gen_range(3..=4usize) } else { rng.gen_range(2..=4usize) };
                 let local = rng.gen_range(0..(1u64 << bits));
-                let cap = rng.gen_range(1..=3);
+                let cap: usize = if hot { rng.gen_range(1..=2) } else { rng.gen_range(1..=3) };
                 let timeout = rng.gen_range(0..=2);
-                let len = rng.gen_range(4..=30);
+                let len = if hot { rng.gen_range(8..=30) } else { rng.gen_range(4..=30) };
                 let pos = rand_pos(&mut rng, bits);
                 let s = json!({"B": bits, "local": local, "cap": cap, "timeout": timeout, "pos": pos, "mseed": rng.gen_range(0..1000u64),
-                               "ops": rand_ops(&mut rng, bits, local, len, timeout, closest)});
+                               "ops": rand_ops(&mut rng, bits, local, len, timeout, closest, hot, cap)});
                 run(&mut out, &s);
             }
             println!("runs={} events={}", out.run, out.events);
